@@ -73,6 +73,18 @@ var (
 	wJobs     int
 )
 
+// workerV8 is the worker's node process (started on first use).
+func workerV8() (*v8x.V8, error) {
+	if wV8 == nil {
+		v, err := v8x.Start(mc.VerifDir())
+		if err != nil {
+			return nil, err
+		}
+		wV8 = v
+	}
+	return wV8, nil
+}
+
 func handleJob(raw json.RawMessage) interface{} {
 	var j job
 	if err := json.Unmarshal(raw, &j); err != nil {
@@ -102,13 +114,11 @@ func handleJob(raw json.RawMessage) interface{} {
 			return shardResult{Harness: "wazero: " + err.Error()}
 		}
 	}
-	if wV8 == nil {
-		var err error
-		if wV8, err = v8x.Start(mc.VerifDir()); err != nil {
-			return shardResult{Harness: err.Error()}
-		}
+	v8, err := workerV8()
+	if err != nil {
+		return shardResult{Harness: err.Error()}
 	}
-	res := evalShard(specs, j.Order0, wWz, wV8)
+	res := evalShard(specs, j.Order0, wWz, v8)
 	if strings.HasPrefix(res.Harness, "v8:") {
 		wV8.Close()
 		wV8 = nil
